@@ -502,8 +502,11 @@ func runLocalHistory(im *Impl, r *Rng, h int, seed uint64) (string, string, bool
 	var hs, kinds []string
 	echoAfterClose := false
 	observe := func() (map[string]map[string][2]int, string, int) {
-		settle(base + len(open)*4) // each open socket keeps a few goroutines of its own
-		time.Sleep(200 * time.Microsecond)
+		// each open socket keeps a few goroutines of its own, so "back at the baseline" cannot be tested
+		// exactly here: wait until the number of goroutines has stopped changing (the relays of this step are
+		// written by short-lived goroutines; on a loaded machine one of them may still be on its way)
+		settle(base + len(open)*4)
+		StableGoroutines(200 * time.Millisecond)
 		ads := map[string]map[string][2]int{}
 		for nn, m := range n.VerifServiceAds() {
 			for s, ad := range m {
